@@ -528,7 +528,12 @@ fn speed_limit_run(r: &mut Rng, t: usize, em: &mut Emit) {
     let (mut con, shape) = default_consist(r, 4);
     let si = if r.chance(0.04) { Some(0) } else { pick_si(r) };
     let mut tags = vec![si_tag(si), format!("units:{}", con.loco_vec.len())];
-    if r.chance(0.1) { let k = r.below(con.loco_vec.len()); misalign_loco(r, &mut con.loco_vec[k], &mut tags); }
+    // the consist handed to the builder carries an interval of its own: the constructor must overwrite it
+    let con_si = [None, Some(1), Some(3), Some(2)][t % 4];
+    con.set_save_interval(con_si);
+    tags.push(format!("consist_interval_before_build:{:?}", con_si));
+    let misaligned = r.chance(0.1);
+    if misaligned { let k = r.below(con.loco_vec.len()); misalign_loco(r, &mut con.loco_vec[k], &mut tags); }
     let tc = train_config(r);
     let timed = r.chance(0.4);
     // a steep descent with weak brakes makes solve_step (plain walk: when the train gets there) or
@@ -549,6 +554,10 @@ fn speed_limit_run(r: &mut Rng, t: usize, em: &mut Emit) {
     lm.insert("B".into(), vec![loc("B", 2)]);
     let tsb = TrainSimBuilder::new(format!("t{}", t), tc, con, Some("A".into()), Some("B".into()), None);
     let sim = match tsb.make_speed_limit_train_sim(&lm, si, None, None) { Ok(s) => s, Err(e) => { if std::env::var("C19_DEBUG").is_ok() { eprintln!("tsim build: {:#}", e); } return } };
+    {
+        let tr = tree_tsim(&sim);
+        em.put(format!("tsim/{}/constructed", t), "constructed", &tr, &[], Ok((&tr, 0, String::new())), &tags, chk_propagated(&tr, "SpeedLimitTrainSim built with a save interval"), false, json!({"interval": si}));
+    }
     let mut s = Slts { sim, network, timed: None, t0: 0.0 };
     if want_err { tags.push(if timed { "setup:steep_descent_on_a_later_link" } else { "setup:weak_brakes_steep_descent" }.to_string()); }
     // the train must be shorter than the first link
@@ -578,6 +587,15 @@ fn speed_limit_run(r: &mut Rng, t: usize, em: &mut Emit) {
     let extra = json!({"interval": si, "shape": shape, "timed": timed, "link_lengths": lens, "want_err": want_err});
     if timed || r.chance(0.5) { drive_walk(format!("tsim/{}", t), &mut s, si, &tags, em, extra); }
     else { drive_manual(r, format!("tsim/{}", t), &mut s, 400, &tags, em, extra); }
+}
+
+/// after a constructor that takes a save interval: every nested object carries the top-level interval
+fn chk_propagated(t: &Tree, what: &str) -> Vec<String> {
+    let ns = t.nodes(); let top = ns[0];
+    let bad: Vec<&&Node> = ns.iter().filter(|n| n.si != top.si).collect();
+    if bad.is_empty() { vec![] } else {
+        vec![format!("{}: nested objects ({} of them, e.g. {}) have save interval {:?} but the top level has {:?}", what, bad.len(), bad[0].name, bad[0].si, top.si)]
+    }
 }
 
 /// objects as their `Default`/`valid` constructors hand them out: is the interval propagated?
